@@ -164,9 +164,9 @@ class Ctx:
             return
         global _PAR
         _PAR = (self, worker)
-        # the thorough tier has an overall wall budget (VERIF_THOROUGH_BUDGET_S, default 2 h per check): jobs that have not
+        # the thorough tier has an overall wall budget (VERIF_THOROUGH_BUDGET_S, default 1 h per check): jobs that have not
         # finished by then are recorded as not explored - never as passed
-        deadline = self.t0 + float(os.environ.get('VERIF_THOROUGH_BUDGET_S', '7200')) if self.tier != 'quick' else None
+        deadline = self.t0 + float(os.environ.get('VERIF_THOROUGH_BUDGET_S', '3600')) if self.tier != 'quick' else None
         with mp.get_context('fork').Pool(nproc) as pool:
             it = pool.imap_unordered(_par_entry, jobs); done = 0
             while done < len(jobs):
@@ -176,7 +176,7 @@ class Ctx:
                     break
                 except mp.TimeoutError:
                     self.not_explored.append('%d of %d scenario jobs not finished within the thorough wall budget (%s s): %s ...' % (
-                        len(jobs) - done, len(jobs), os.environ.get('VERIF_THOROUGH_BUDGET_S', '7200'), str(jobs[-1])[:120]))
+                        len(jobs) - done, len(jobs), os.environ.get('VERIF_THOROUGH_BUDGET_S', '3600'), str(jobs[-1])[:120]))
                     pool.terminate(); break
                 done += 1
                 if 'error' in res:
